@@ -102,10 +102,12 @@ def run_item(item):
     for t in my_nodes:
         run([t], "singleton")
     for _ in range(4 if item["tier"] == "quick" else 10):
-        size = int(rng.integers(2, 41))
+        size = min(int(rng.integers(2, 41)), len(nodes))
         run([nodes[i] for i in rng.choice(len(nodes), size, replace=False)], "subset")
     # pairs: a node together with one other node (side effects of one target's preparation on another)
     for _ in range(6 if item["tier"] == "quick" else 20):
+        if len(nodes) < 2:
+            break
         a, b = (nodes[i] for i in rng.choice(len(nodes), 2, replace=False))
         run([a, b], "pair")
     # nodes that depend on parameters only
@@ -129,14 +131,14 @@ def run_item(item):
         if f"{lvl}_id" not in S0.columns:
             continue  # (historical dates) the grouping itself is not computable there
         o1, _ = run([t], "auto_sum_alone", expect_cols=True)
-        others = [nodes[i] for i in rng.choice(len(nodes), 5, replace=False)]
+        others = [nodes[i] for i in rng.choice(len(nodes), min(5, len(nodes)), replace=False)]
         o2, _ = run([t, *others], "auto_sum_in_set")
         if o1 is not None and o2 is not None and t in o1 and t in o2:
             res["columns_compared"] += 1
             if not _eq(o1[t].to_numpy(), o2[t].to_numpy()):
                 viol(f"{t}:auto_sum", f"requested automatic sum {t} differs between target sets")
     # options: debug, extra columns, minimal specification
-    tsub = [nodes[i] for i in rng.choice(len(nodes), 6, replace=False)]
+    tsub = [nodes[i] for i in rng.choice(len(nodes), min(6, len(nodes)), replace=False)]
     out, _ = run(tsub, "debug", debug=True)
     if out is not None:
         missing = [c for c in tsub if c not in out.columns]
